@@ -1,1 +1,162 @@
-//! Verification doors: net (cfg(trusttunnel_verif) only)
+//! Verification doors: egress policy (cfg(trusttunnel_verif) only)
+//!
+//! * `is_global_ip` — the classifier of `net_utils`
+//! * `Egress` — the real `TcpForwarder::connect` with chosen policy flags, returning a
+//!   plain result class
+//! * `override_resolved` — called from one shadowing line after the real `lookup_host` in
+//!   `tcp_forwarder.rs`: records the `Resolved` event and, when the harness registered
+//!   answers for that (host, port), replaces the resolver's answer list
+
+use crate::forwarder::TcpConnector;
+use crate::net_utils::{HostnamePort, TcpDestination};
+use crate::settings::{Http1Settings, ListenProtocolSettings, Settings};
+use crate::tcp_forwarder::TcpForwarder;
+use crate::{core, forwarder, log_utils, net_utils, tunnel};
+use bytes::Bytes;
+use std::collections::HashMap;
+use std::io;
+use std::net::{IpAddr, Ipv4Addr, SocketAddr};
+use std::sync::{Arc, Mutex};
+use std::time::Duration;
+
+/// The classifier under test
+pub fn is_global_ip(ip: &IpAddr) -> bool {
+    net_utils::is_global_ip(ip)
+}
+
+/// How the client named the destination, after `TcpConnection::destination`
+#[derive(Debug, Clone)]
+pub enum Destination {
+    /// the authority parsed as a socket address
+    Address(SocketAddr),
+    /// anything else: host name and port
+    HostName(String, u16),
+}
+
+/// Plain view of the result of `TcpForwarder::connect`
+#[derive(Debug, Clone, PartialEq, Eq)]
+pub enum ConnectClass {
+    /// a connection was established; `token_sent` tells whether the token could be written
+    /// through the returned sink
+    Established { token_sent: bool },
+    DnsLoopback,
+    DnsNonroutable,
+    Io { kind: String, text: String },
+    Timeout,
+    HostUnreachable,
+    Authentication,
+    Other(String),
+    /// the call did not finish within the cap given by the harness (nothing was refused so far)
+    Capped,
+}
+
+static OVERRIDES: Mutex<Option<HashMap<HostnamePort, Vec<SocketAddr>>>> = Mutex::new(None);
+
+/// Register the answer list the next resolution of `(host, port)` is replaced with
+pub fn set_override(host: &str, port: u16, answers: Vec<SocketAddr>) {
+    let mut g = OVERRIDES.lock().unwrap_or_else(|e| e.into_inner());
+    g.get_or_insert_with(HashMap::new)
+        .insert((host.to_string(), port), answers);
+}
+
+pub fn clear_override(host: &str, port: u16) {
+    let mut g = OVERRIDES.lock().unwrap_or_else(|e| e.into_inner());
+    if let Some(m) = g.as_mut() {
+        m.remove(&(host.to_string(), port));
+    }
+}
+
+/// Hook behind the shadowing line in `tcp_forwarder.rs`. A no-op (apart from collecting the
+/// iterator) when nothing is registered for the pair.
+pub(crate) fn override_resolved(
+    id: &log_utils::IdChain<u64>,
+    peer: &HostnamePort,
+    resolved: impl Iterator<Item = SocketAddr>,
+) -> Vec<SocketAddr> {
+    let real: Vec<SocketAddr> = resolved.collect();
+    let replaced = {
+        let g = OVERRIDES.lock().unwrap_or_else(|e| e.into_inner());
+        g.as_ref().and_then(|m| m.get(peer).cloned())
+    };
+    let overridden = replaced.is_some();
+    let list = replaced.unwrap_or(real);
+    if super::is_recording() {
+        let l: Vec<String> = list.iter().map(|a| format!("\"{}\"", a)).collect();
+        crate::verif_emit!(
+            "Resolved",
+            "\"id\":\"{}\",\"host\":\"{}\",\"port\":{},\"overridden\":{},\"list\":[{}]",
+            id,
+            peer.0.replace(['"', '\\'], "?"),
+            peer.1,
+            overridden,
+            l.join(",")
+        );
+    }
+    list
+}
+
+/// A `TcpForwarder` factory with fixed policy flags
+pub struct Egress {
+    context: Arc<core::Context>,
+}
+
+impl Egress {
+    pub fn new(allow_private_network_connections: bool, ipv6_available: bool) -> io::Result<Self> {
+        let settings: Settings = Settings::builder()
+            .listen_address((Ipv4Addr::LOCALHOST, 1))?
+            .listen_protocols(ListenProtocolSettings {
+                http1: Some(Http1Settings::builder().build()),
+                ..Default::default()
+            })
+            .allow_private_network_connections(allow_private_network_connections)
+            .ipv6_available(ipv6_available)
+            .build()
+            .map_err(|e| io::Error::new(io::ErrorKind::Other, format!("{:?}", e)))?;
+        Ok(Self {
+            context: core::Context::verif_with_settings(settings)?,
+        })
+    }
+
+    /// One `TcpForwarder::connect` call. `req` becomes the log id (`REQ=<req>`) carried by the
+    /// hook events. On success `token` is written through the returned sink and flushed, so a
+    /// listener can tell which request reached it. The whole call is capped by `cap`.
+    pub async fn connect(&self, req: u64, destination: Destination, token: &[u8], cap: Duration) -> ConnectClass {
+        let connector: Box<dyn TcpConnector> = Box::new(TcpForwarder::new(self.context.clone()));
+        let id = log_utils::IdChain::from(log_utils::IdItem::new("REQ={}", req));
+        let meta = forwarder::TcpConnectionMeta {
+            client_address: IpAddr::V4(Ipv4Addr::new(198, 51, 100, 77)),
+            destination: match destination {
+                Destination::Address(a) => TcpDestination::Address(a),
+                Destination::HostName(h, p) => TcpDestination::HostName((h, p)),
+            },
+            auth: None,
+            tls_domain: String::new(),
+            user_agent: None,
+        };
+        let token = Bytes::copy_from_slice(token);
+        let fut = async move {
+            match connector.connect(id, meta).await {
+                Ok((source, mut sink)) => {
+                    let sent = sink.write_all(token).await.is_ok() && sink.flush().await.is_ok();
+                    drop(sink);
+                    drop(source);
+                    ConnectClass::Established { token_sent: sent }
+                }
+                Err(tunnel::ConnectionError::DnsLoopback) => ConnectClass::DnsLoopback,
+                Err(tunnel::ConnectionError::DnsNonroutable) => ConnectClass::DnsNonroutable,
+                Err(tunnel::ConnectionError::Io(e)) => ConnectClass::Io {
+                    kind: format!("{:?}", e.kind()),
+                    text: e.to_string(),
+                },
+                Err(tunnel::ConnectionError::Timeout) => ConnectClass::Timeout,
+                Err(tunnel::ConnectionError::HostUnreachable) => ConnectClass::HostUnreachable,
+                Err(tunnel::ConnectionError::Authentication(_)) => ConnectClass::Authentication,
+                Err(tunnel::ConnectionError::Other(x)) => ConnectClass::Other(x),
+            }
+        };
+        match tokio::time::timeout(cap, fut).await {
+            Ok(c) => c,
+            Err(_) => ConnectClass::Capped,
+        }
+    }
+}
